@@ -152,7 +152,7 @@ func checkScan(t *testing.T, c Case) (v harness.Verdict) {
 			}
 			opts = *d
 		}
-		s := scanner.NewScanner(f, opts)
+		s := scanner.NewScanner(clientFor(&c, f), opts)
 		found := func(kind int) func(*ct.RawLogEntry) {
 			return func(e *ct.RawLogEntry) {
 				ph := int(st.phase.Load())
